@@ -6,7 +6,8 @@
 (* (multisets: the rule does not depend on the order of the modes in the library).                             *)
 (* For the libraries of <= WideModes modes two more dimensions are explored: the configuration of the add/drop *)
 (* stages (profiles listed in any order, profile id 0 selected / nothing selected / no profile at all) and     *)
-(* batches of two requests with the same ends and mode on equal or different routes.                           *)
+(* batches of two requests with the same ends and mode on equal or different routes, or differing only in      *)
+(* their bidirectional flag; a user-defined spectrum whose carriers have different transmitter OSNR.            *)
 EXTENDS Feasibility, Json, TLC
 
 CONSTANTS MaxModes, WideModes
@@ -41,11 +42,16 @@ MCStageConfigs == {MCDefaultStages,
                    <<St("add", 0, P), St("drop", NONE, P)>>,            \* profile 0 selected on the add degree
                    <<St("add", 3, P), St("drop", 1, P)>>}
 MCRoutes == {1, 2}
+MCCarriers == {1, 2}
+MCMixed == (1 :> 30) @@ (2 :> 6000)          \* the first carrier has the better transmitter
+Sc(s, r, f, sp) == [stages |-> s, routes |-> r, flags |-> f, spectrum |-> sp]
 MCScenarios(l) ==
   IF Len(l) <= WideModes
-  THEN {[stages |-> s, routes |-> <<1>>] : s \in MCStageConfigs}
-       \cup {[stages |-> MCDefaultStages, routes |-> <<a, b>>] : a, b \in MCRoutes}
-  ELSE {[stages |-> MCDefaultStages, routes |-> <<1>>]}
+  THEN {Sc(s, <<1>>, <<>>, <<>>) : s \in MCStageConfigs}
+       \cup {Sc(MCDefaultStages, <<a, b>>, <<>>, <<>>) : a, b \in MCRoutes}
+       \cup {Sc(MCDefaultStages, <<1, 1>>, f, <<>>) : f \in {<<TRUE, FALSE>>, <<FALSE, TRUE>>}}
+       \cup {Sc(MCDefaultStages, <<1>>, <<>>, MCMixed)}
+  ELSE {Sc(MCDefaultStages, <<1>>, <<>>, <<>>)}
 MCLineInv == (32 :> 3000) @@ (64 :> 5000)
 MCRevMargins == {-1000000, 0, 1000000, -Inf}
 
@@ -60,8 +66,16 @@ NoNext == FALSE /\ UNCHANGED vars
 \* reachability witnesses (negated: TLC must find a counterexample to each, see harness/checks/c13.py)
 WitnessManyUpdates == ~(nUpdates >= 3 /\ Done)
 WitnessReverseBlocks == ~(Done /\ req.auto /\ out.block = NotFeas)
-WitnessProfileZero == ~(last # 0 /\ stages[1].sel = 0 /\ rx = line + lib[last].tx + 400 + 150)
+WitnessProfileZero == ~(last # 0 /\ stages[1].sel = 0 /\ rx[1] = line[1] + lib[last].tx + 400 + 150)
+WitnessMixedSpectrum == ~(last # 0 /\ spectrum # <<>> /\ rx[2] - line[2] # rx[1] - line[1])
+WitnessMixedFlags == ~(Done /\ k = 2 /\ flags = <<TRUE, FALSE>> /\ revOf # <<>> /\ ~RevRan)
 WitnessOtherRoute == ~(Done /\ k = 2 /\ routes[1] # routes[2] /\ RevRan /\ routes[1] \in DOMAIN revOf /\ rev # revOf[routes[1]])
 WitnessSameRoute == ~(Done /\ k = 2 /\ routes[1] = routes[2] /\ RevRan)
+\* the same five, as tags printed by ONE run over the one-mode sub-model (each tag must appear)
+WitnessTags == /\ (~WitnessProfileZero => PrintT("@@" \o ToJson("ProfileZero")))
+               /\ (~WitnessOtherRoute => PrintT("@@" \o ToJson("OtherRoute")))
+               /\ (~WitnessSameRoute => PrintT("@@" \o ToJson("SameRoute")))
+               /\ (~WitnessMixedSpectrum => PrintT("@@" \o ToJson("MixedSpectrum")))
+               /\ (~WitnessMixedFlags => PrintT("@@" \o ToJson("MixedFlags")))
 WitnessUnjudgedPick == ~(Done /\ out.block = NoBlock /\ out.sel # 0 /\ Unjudged(lib[out.sel]))
 ==============================================================================
